@@ -1,5 +1,6 @@
 import ScenicModel.Gen.LTL
 import ScenicModel.Model.LTLBuild
+import ScenicModel.Model.LTLScenario
 import ScenicModel.Gen.LTLGram
 import Driver.Util
 /-!
@@ -13,6 +14,10 @@ table are the ones regenerated from the sources.
   run  k len <tree>      per trace `s`/`S` (initial-scene check passes/fails) followed by the outcome of the rule: `A` or `R<t>`
   rts  k len <tree>      per trace the outcome of a `require` in the setup block of a scenario started at run time (`X` = exception)
   dyn  k len <tree>      per trace the outcome of a `require` executed in a compose block
+  sim  k len <seg> ; <seg> ; …   a scenario with several temporal requirements; a segment is `i <tree>` (registered
+                         before the start) or `<s> <tree>` (executed by the compose block in step s): per trace `A` / `R<t>`
+  immv <codes> <tree>    a non-temporal `require` evaluated on the spot on atom *values*: one code per atom
+                         (`1 0 2 e s l L f N` = 1, 0, 2, "", "x", [], [0], 0.0, None)
   cls  <tree>            `okZero(crisp=false) okZero(crisp=true) prop`
   parse <tokens>         the tree the temporal-expression rules of scenic.gram give (prefix form) or `error`
 -/
@@ -44,6 +49,36 @@ def withTree (k len : String) (toks : List String) (g : Nat → Nat → F → St
   | some k, some len, some f => if k * len ≤ 12 then g k len f else "too-big"
   | _, _, _ => "bad-tree"
 
+/-- split a token list at the separator `;` -/
+def splitSegs : List String → List (List String)
+  | [] => [[]]
+  | ";" :: ts => [] :: splitSegs ts
+  | t :: ts =>
+    match splitSegs ts with
+    | seg :: segs => (t :: seg) :: segs
+    | [] => [[t]]
+
+/-- segments → (requirements registered before the start, (step, requirement) executed by the compose block) -/
+def parseSegs : List (List String) → Option (List F × List (Nat × F))
+  | [] => some ([], [])
+  | [] :: rest => parseSegs rest
+  | (w :: toks) :: rest =>
+    match build cmap toks, parseSegs rest with
+    | some f, some (ini, adds) =>
+      if w == "i" then some (f :: ini, adds) else w.toNat?.map fun s => (ini, (s, f) :: adds)
+    | _, _ => none
+
+def valOfCode : Char → PyVal
+  | '1' => { truth := true, isNone := false, tag := 1 }
+  | '0' => { truth := false, isNone := false, tag := 2 }
+  | '2' => { truth := true, isNone := false, tag := 3 }
+  | 'e' => { truth := false, isNone := false, tag := 4 }
+  | 's' => { truth := true, isNone := false, tag := 5 }
+  | 'l' => { truth := false, isNone := false, tag := 6 }
+  | 'L' => { truth := true, isNone := false, tag := 7 }
+  | 'f' => { truth := false, isNone := false, tag := 8 }
+  | _ => { truth := false, isNone := true, tag := 9 }
+
 def handle : List String → String
   | "mon" :: k :: len :: toks => withTree k len toks fun k len f => allTraces k len (fun σ => verdicts f σ len) ""
   | "mon1" :: rows :: toks =>
@@ -57,6 +92,17 @@ def handle : List String → String
       allTraces k len (fun σ => showOutcome (runRuntimeSetup cfg rule f σ len)) " "
   | "dyn" :: k :: len :: toks => withTree k len toks fun k len f =>
       allTraces k len (fun σ => showOutcome (runDynamic cfg rule f σ len)) " "
+  | "sim" :: k :: len :: toks =>
+    match k.toNat?, len.toNat?, parseSegs (splitSegs toks) with
+    | some k, some len, some (ini, adds) =>
+      if k * len ≤ 12 then
+        allTraces k len (fun σ => showOutcome (simulate cfg rule ini (scriptOf adds) σ len)) " "
+      else "too-big"
+    | _, _, _ => "bad-tree"
+  | "immv" :: codes :: toks =>
+    match build cmap toks with
+    | some f => showOutcome (runImmediateV rule f fun a => valOfCode (codes.toList.getD a 'N'))
+    | none => "bad-tree"
   | "cls" :: toks =>
     match build cmap toks with
     | some f => s!"{bit (f.okZero cfg false)} {bit (f.okZero cfg true)} {bit f.prop}"
